@@ -18,19 +18,39 @@ pub fn def() -> PropDef {
         run_unit,
         replay,
         required_probes: &["Cbrt_RemPos", "Cbrt_RemNeg", "Cbrt_RemZero", "Cbrt_LeadingZeroRemainder", "Cbrt_Inexact", "Cbrt_Exact"],
-        rule: "seeded decimals of both signs, 1..2000 digits, scales -2000..2000 covering all residues mod 3, with dedicated families: inputs longer than 3(p+5) digits, perfect cubes t^3, perfect cubes +-1 unit in a far-away digit, roots with 5000.. (exact tie) / 5000..x / 4999..9x / 99..9 tails after the p-th digit (built by cubing a (p+1..p+40)-digit root and perturbing), all-nines and 10^k; p in 1..150 and 160, weight on 1..5 and 100; 7 modes; cbrt_with_context on x and -x and cbrt() for the default context; oracle = correctly rounded root from a verified integer cube-root bracket with Floor/Ceiling on the signed value, directed-mode inequalities r^3 >= x / r^3 <= x separately, and the mirror identity cbrt(-x, m) = -cbrt(x, mirror(m)) on the crate's own outputs. distinct = distinct (x, p, mode); non-trivial = root not representable in p digits",
+        rule: "exhaustive small scope: every |n| in 1..1500, both signs x scales -3..3 x p 1..3 x 7 modes; then seeded decimals of both signs, 1..2000 digits, scales -2000..2000 covering all residues mod 3, with dedicated families: inputs longer than 3(p+5) digits, perfect cubes t^3, perfect cubes +-1 unit in a far-away digit, roots with 5000.. (exact tie) / 5000..x / 4999..9x / 99..9 tails after the p-th digit (built by cubing a (p+1..p+40)-digit root and perturbing), all-nines and 10^k; p in 1..150 and 160, weight on 1..5 and 100; 7 modes; cbrt_with_context on x and -x and cbrt() for the default context; oracle = correctly rounded root from a verified integer cube-root bracket with Floor/Ceiling on the signed value, directed-mode inequalities r^3 >= x / r^3 <= x separately, and the mirror identity cbrt(-x, m) = -cbrt(x, mirror(m)) on the crate's own outputs. distinct = distinct (x, p, mode); non-trivial = root not representable in p digits",
     }
 }
 
 fn plan(tier: Tier) -> Vec<Unit> {
     match tier {
-        Tier::Quick => crate::util::split_budget("roots", 240_000, 2_000),
-        Tier::Thorough => crate::util::split_budget("roots", 24_000_000, 10_000),
+        Tier::Quick => { let mut v = crate::util::split_budget("roots", 240_000, 2_000); v.extend(crate::util::split_budget("small", 1_500, 30)); v }
+        Tier::Thorough => { let mut v = crate::util::split_budget("roots", 24_000_000, 10_000); v.extend(crate::util::split_budget("small", 1_500, 15)); v }
         Tier::Miri => crate::util::split_budget("roots", 4, 2),
     }
 }
 
 fn run_unit(unit: &Unit, r: &mut Rng, ctx: &mut Ctx) {
+    if unit.kind == "small" {
+        // exhaustive: every n in 1..=1500, both signs x scale -3..=3 x p 1..=3 x 7 modes
+        for idx in unit.start..unit.start + unit.count {
+            let n = idx as i64 + 1;
+            for sg in [1i64, -1] {
+                for s in -3i64..=3 {
+                    for p in 1u64..=3 {
+                        for &mode in MODES.iter() {
+                            let case = Case::new("cbrt").push(Dec::new(BigInt::from(sg * n), s).tok()).push(p).push(mode_name(mode));
+                            check_case(&case, ctx);
+                        }
+                    }
+                }
+            }
+        }
+        if unit.start == 0 {
+            ctx.exhaustive_notes.push("C11 small scope: every |n| in 1..1500, both signs x scales -3..3 x p 1..3 x 7 modes (441 000 cases)".into());
+        }
+        return;
+    }
     for i in 0..unit.count {
         let p = if r.chance(1, 30) { 160 } else { gen_precision(r) };
         let mut x = if r.chance(1, 60) { Dec::new(BigInt::zero(), r.range(-50, 50)) } else { gen_radicand(r, 3, p, unit.start + i) };
